@@ -9,8 +9,9 @@ import GqlModel.Basic.Utf8
   * `strconv.ParseFloat(s, 64)`    — only the status: ok / syntax / range(sign); the value is never
     needed (floats travel as text);
   * `strconv.ParseBool`;
-  * `strconv.Quote` restricted to what the error messages of the three need;
-  * `strings.EqualFold(s, t)` for an ASCII `t` (enum value names are ASCII by the grammar).
+  * `strconv.Quote` restricted to what the error messages of the three need.
+  (`strings.EqualFold` was modelled here while vars.go matched enum values with it; since the
+  repair "enum variable values must match a declared value exactly" it is no longer called.)
 -/
 namespace Gql.Strconv
 open Gql
@@ -260,29 +261,6 @@ def quote (s : Bytes) : Bytes :=
 def numErrorMsg (fn : String) (raw : Bytes) (e : NumErr) : Bytes :=
   str "strconv." ++ str fn ++ str ": parsing " ++ quote raw ++ str ": " ++
     (match e with | .syntax => str "invalid syntax" | .range => str "value out of range")
-
-/- ---------------- strings.EqualFold against an ASCII string ---------------- -/
-
-/-- simple-folding equality of a decoded rune with an ASCII byte (the orbits of `k` and `s`
-    contain U+212A KELVIN SIGN and U+017F LONG S) -/
-def foldEqAscii (r : Nat) (c : Nat) : Bool :=
-  if r < 128 then lower r = lower c
-  else (r = 0x212A && lower c = 107) || (r = 0x17F && lower c = 115)
-
-/-- `strings.EqualFold(s, t)` where `t` is ASCII -/
-def equalFoldAscii (s t : Bytes) (fuel : Nat := s.length + 1) : Bool :=
-  match fuel with
-  | 0 => false
-  | fuel + 1 =>
-    match s, t with
-    | [], [] => true
-    | [], _ :: _ => false
-    | _ :: _, [] => false
-    | c :: s', d :: t' =>
-      if c < 128 then (lower c = lower d) && equalFoldAscii s' t' fuel
-      else
-        let (r, w) := decodeRune (c :: s')
-        foldEqAscii r d && equalFoldAscii ((c :: s').drop w) t' fuel
 
 /-- `_, e := strconv.ParseInt(s, 10, 64); e == nil` -/
 def parseIntOk (t : Bytes) : Bool := match parseInt t with | .ok _ => true | _ => false
